@@ -55,11 +55,34 @@ func (c *Ctx) addrPath(v ssa.Value, d int) string {
 	case *ssa.IndexAddr:
 		return c.addrPath(x.X, d+1) + "[]"
 	case *ssa.Alloc:
-		if spilledParam(x) != nil {
+		if sp := spilledParam(x); sp != nil {
+			// a by-value parameter of a new helper: the caller's variable it was copied from
+			if arg, env, ok := c.lookThrough(sp); ok {
+				if ld, isLd := arg.(*ssa.UnOp); isLd && ld.Op == token.MUL {
+					save := c.tenv
+					c.tenv = env
+					s := c.addrPath(ld.X, d+1)
+					c.tenv = save
+					return s
+				}
+			}
 			return typeName(x.Type())
+		}
+		// a local that is nothing but a copy of a structure reachable from a parameter reads as that structure
+		if src := localCopyOf(x); src != nil {
+			if p := c.addrPath(src, d+1); !strings.HasPrefix(p, "new(") && !strings.HasPrefix(p, "?") {
+				return p
+			}
 		}
 		return "new(" + typeName(x.Type()) + ")"
 	case *ssa.Parameter:
+		if arg, env, ok := c.lookThrough(x); ok && pointerLike(x.Type()) {
+			save := c.tenv
+			c.tenv = env
+			s := c.addrPath(arg, d+1)
+			c.tenv = save
+			return s
+		}
 		return typeName(x.Type())
 	case *ssa.FreeVar:
 		return "free:" + c.freeVarName(x)
@@ -131,6 +154,13 @@ func (c *Ctx) term(v ssa.Value, d int) string {
 	case *ssa.Const:
 		return constStr(x)
 	case *ssa.Parameter:
+		if arg, env, ok := c.lookThrough(x); ok {
+			save := c.tenv
+			c.tenv = env
+			s := c.term(arg, d+1)
+			c.tenv = save
+			return s
+		}
 		return "$" + c.paramName(x)
 	case *ssa.FreeVar:
 		return "free:" + c.freeVarName(x)
@@ -167,6 +197,17 @@ func (c *Ctx) term(v ssa.Value, d int) string {
 			return b.Name() + "(" + strings.Join(args, ", ") + ")"
 		}
 		if sc := x.Call.StaticCallee(); sc != nil {
+			if rv := c.inlinable(sc); rv != nil && len(sc.Params) == len(x.Call.Args) && d < 8 {
+				bind := map[*ssa.Parameter]ssa.Value{}
+				for i, p := range sc.Params {
+					bind[p] = x.Call.Args[i]
+				}
+				save := c.tenv
+				c.tenv = &termEnv{bind: bind, up: save}
+				s := c.term(rv, d+1)
+				c.tenv = save
+				return s
+			}
 			return c.Name(sc) + "(" + strings.Join(args, ", ") + ")"
 		}
 		if x.Call.IsInvoke() {
@@ -503,6 +544,9 @@ func genParamNames(c *Ctx) {
 	fmt.Println("var frozenParams = map[string][]string{")
 	var lines []string
 	for _, f := range c.FuncSeq {
+		if len(f.Params) == 0 && f.Blocks != nil {
+			lines = append(lines, fmt.Sprintf("\t%q: {},", c.Name(f)))
+		}
 		if len(f.Params) > 0 {
 			var n []string
 			for _, p := range f.Params {
@@ -523,4 +567,181 @@ func genParamNames(c *Ctx) {
 		fmt.Println(l)
 	}
 	fmt.Println("}")
+}
+
+// ---- functions that did not exist when the rules were written -------------------------------------------------
+//
+// A function that is not in frozenParams is new: typically a helper extracted from a function the rules are anchored
+// on. Moving code into a helper is not a change of behaviour, so such helpers are looked through: their parameters
+// render as the caller's arguments (one call site) and a call of a straight-line, effect-free one renders as its
+// result expression; facts established before the call hold inside; who-may tables treat the helper as its caller.
+
+func (c *Ctx) isNew(f *ssa.Function) bool {
+	if f == nil || f.Blocks == nil || !c.IsLib(f) || f.Synthetic != "" {
+		return false
+	}
+	_, known := frozenParams[c.Name(f)]
+	return !known
+}
+
+// soleCall: the only call site (in the two packages) of a new function; nil when there are several, none, or the
+// function is used as a value.
+func (c *Ctx) soleCall(f *ssa.Function) ssa.CallInstruction {
+	if c.soleCalls == nil {
+		c.soleCalls = map[*ssa.Function]ssa.CallInstruction{}
+		count := map[*ssa.Function]int{}
+		for _, g := range c.FuncSeq {
+			for _, b := range g.Blocks {
+				for _, in := range b.Instrs {
+					// used as a value?
+					for _, op := range in.Operands(nil) {
+						if op == nil || *op == nil {
+							continue
+						}
+						if fv, ok := (*op).(*ssa.Function); ok {
+							if call, isCall := in.(ssa.CallInstruction); isCall && call.Common().Value == ssa.Value(fv) && !call.Common().IsInvoke() {
+								continue
+							}
+							count[fv] += 2
+						}
+					}
+					call, ok := in.(ssa.CallInstruction)
+					if !ok {
+						continue
+					}
+					if sc := call.Common().StaticCallee(); sc != nil {
+						count[sc]++
+						c.soleCalls[sc] = call
+					}
+				}
+			}
+		}
+		for f, n := range count {
+			if n != 1 {
+				delete(c.soleCalls, f)
+			}
+		}
+	}
+	if !c.isNew(f) {
+		return nil
+	}
+	return c.soleCalls[f]
+}
+
+// owner: the function a new single-call-site helper belongs to (itself otherwise).
+func (c *Ctx) owner(f *ssa.Function) *ssa.Function {
+	for i := 0; i < 4 && f != nil; i++ {
+		cs := c.soleCall(f)
+		if cs == nil {
+			return f
+		}
+		f = cs.Parent()
+	}
+	return f
+}
+
+// within: the instruction lies in fn, or in a new helper that is (transitively) called only from fn.
+func (c *Ctx) within(in ssa.Instruction, fn *ssa.Function) bool {
+	return in.Parent() == fn || c.owner(in.Parent()) == fn
+}
+
+type termEnv struct {
+	bind map[*ssa.Parameter]ssa.Value
+	up   *termEnv
+}
+
+// inlinable: a new function whose body is one straight-line block without effects, returning one value.
+func (c *Ctx) inlinable(f *ssa.Function) ssa.Value {
+	if !c.isNew(f) || len(f.Blocks) != 1 || len(f.FreeVars) > 0 {
+		return nil
+	}
+	var ret *ssa.Return
+	for _, in := range f.Blocks[0].Instrs {
+		switch x := in.(type) {
+		case *ssa.Return:
+			ret = x
+		case *ssa.Store:
+			// only the spill of a value parameter into its local
+			al, ok := x.Addr.(*ssa.Alloc)
+			if !ok || spilledParam(al) == nil {
+				return nil
+			}
+		case *ssa.Call:
+			if _, isB := x.Call.Value.(*ssa.Builtin); !isB {
+				g := x.Call.StaticCallee()
+				if g == nil || c.inlinable(g) == nil {
+					return nil
+				}
+			}
+		case *ssa.MapUpdate, *ssa.Send, *ssa.Go, *ssa.Defer, *ssa.Panic, *ssa.RunDefers:
+			return nil
+		}
+	}
+	if ret == nil || len(ret.Results) != 1 {
+		return nil
+	}
+	return ret.Results[0]
+}
+
+// lookThrough: what a parameter of a new function stands for: the argument bound by the call being inlined in the
+// current rendering (with the environment of that call's context), else the argument at the function's only call site.
+func (c *Ctx) lookThrough(p *ssa.Parameter) (ssa.Value, *termEnv, bool) {
+	for e := c.tenv; e != nil; e = e.up {
+		if b, ok := e.bind[p]; ok {
+			return b, e.up, true
+		}
+	}
+	if cs := c.soleCall(p.Parent()); cs != nil {
+		args := cs.Common().Args
+		if i := paramIndex(p); i >= 0 && i < len(args) && !cs.Common().IsInvoke() {
+			return args[i], nil, true
+		}
+	}
+	return nil, nil, false
+}
+
+// resolveParam: a parameter of a new single-use helper stands for the argument at its call site.
+func (c *Ctx) resolveParam(v ssa.Value) ssa.Value {
+	for i := 0; i < 4; i++ {
+		p, ok := v.(*ssa.Parameter)
+		if !ok {
+			return v
+		}
+		cs := c.soleCall(p.Parent())
+		if cs == nil || cs.Common().IsInvoke() {
+			return v
+		}
+		args := cs.Common().Args
+		idx := paramIndex(p)
+		if idx < 0 || idx >= len(args) {
+			return v
+		}
+		v = resolveLocal(args[idx])
+	}
+	return v
+}
+
+// localCopyOf: the address a struct-typed local was copied from, when its only whole-variable store is `local = *addr`
+// and nothing else writes the local as a whole.
+func localCopyOf(al *ssa.Alloc) ssa.Value {
+	if al.Referrers() == nil {
+		return nil
+	}
+	if _, isStruct := al.Type().Underlying().(*types.Pointer).Elem().Underlying().(*types.Struct); !isStruct {
+		return nil
+	}
+	var src ssa.Value
+	n := 0
+	for _, r := range *al.Referrers() {
+		if st, ok := r.(*ssa.Store); ok && st.Addr == ssa.Value(al) {
+			n++
+			if ld, isLd := st.Val.(*ssa.UnOp); isLd && ld.Op == token.MUL {
+				src = ld.X
+			}
+		}
+	}
+	if n != 1 {
+		return nil
+	}
+	return src
 }
